@@ -414,6 +414,15 @@ def directed():
                 for _ in range(3):
                     c = gen_case(rng, "quick", op, None if op in ("col_int", "col_slice", "ravel", "concat", "npfunc", "intervals") else variant, dtype)
                     yield c
+    # zero-rich matrices: column-wise any / sum and row-wise any / all are only informative where zeros and non-zeros interleave
+    for _ in range(120):
+        r_, c_ = rng.randint(1, 5), rng.randint(1, 8)
+        M_ = [[rng.choice([0, 0, 1, 2]) for _ in range(c_)] for _ in range(r_)]
+        dtype_ = rng.choice(["int64", "bool", "uint8", "float64"])
+        if dtype_ == "bool":
+            M_ = [[bool(x) for x in row] for row in M_]
+        yield {"op": "red_col", "variant": "2d", "dtype": dtype_, "rows": M_, "name": rng.choice(["any", "any", "sum"]), "order": rng.choice(["C", "F"])}
+        yield {"op": "red_row", "variant": rng.choice(["2d", "ragged_from_matrix"]), "dtype": dtype_, "rows": M_, "name": rng.choice(["any", "all", "sum"])}
     R = [[1, 3, 3, 3, 2, 2, 5], [4, 4, 9, 9], [7, 7, 7, 7, 7, 8]]
     for cs in [slice(None, None, -2), slice(None, None, -3), slice(None, None, 2), slice(1, None, 3), slice(-2, None), slice(None, -1), slice(3, 0, -1), slice(-1, -4, -2)]:
         yield {"op": "col_slice", "variant": "ragged", "dtype": "int64", "rows": R, "rs": slice(None), "cs": cs}
